@@ -147,19 +147,21 @@ theorem getIn_getOut (b : Basis K) (h : WF b) (x : Vec 3 K) : b.getIn (b.getOut 
 def OpWF : Basis.Op K → Prop
   | .lin => True | .circ => True
   | .ell co so ce se => co*co + so*so = 1 ∧ ce*ce + se*se = 1
-theorem apply_wf (b : Basis K) (op : Basis.Op K) (h : OpWF op) : WF (b.apply op) := by
+  | .refused => True
+theorem apply_wf (b : Basis K) (h0 : WF b) (op : Basis.Op K) (h : OpWF op) : WF (b.apply op) := by
   cases op with
   | lin => exact linear_wf
   | circ => exact circular_wf
   | ell co so ce se => exact elliptical_wf co so ce se h.1 h.2
-/-- **every sequence of basis changes on one object leaves it well formed** -/
+  | refused => exact h0
+/-- **every sequence of basis changes on one object — refused settings included — leaves it well formed** -/
 theorem history_wf (ops : List (Basis.Op K)) (b0 : Basis K) (h0 : WF b0) (h : ∀ op ∈ ops, OpWF op) :
     WF (ops.foldl Basis.apply b0) := by
   induction ops generalizing b0 with
   | nil => exact h0
   | cons op ops ih =>
     simp only [List.foldl_cons]
-    exact ih _ (apply_wf b0 op (h op (List.mem_cons_self ..))) (fun o ho => h o (List.mem_cons_of_mem _ ho))
+    exact ih _ (apply_wf b0 h0 op (h op (List.mem_cons_self ..))) (fun o ho => h o (List.mem_cons_of_mem _ ho))
 
 /-- the circular basis coincides with orientation = ellipticity = π/4
 (`cos 2o = cos 2e = 0`, `sin 2o = sin 2e = 1`) -/
